@@ -96,6 +96,7 @@ def run(ctx):
         gs = [g for g in L.guards(hr) if g.lock_field() == 'active_operations']
         okat = bool(gs) and L.atomic_section(hr, gs[0], gs[0].def_bb, c.bb)[0]
         ctx.ob('AT-MOST-ONCE', 'A:send#%d:one-guard' % i, okat, c.where(), 'lookup, authorisation and completion happen under one active_operations guard with no await: %s' % okat)
+    _no_unauth_effect(ctx, hr, 'A', 'active_operations', ('peer_id', 'contacted_nodes'), ('sender',), MGR + '::handle_dht_response')
     # sender provenance up the chain: handle_dht_message passes its `sender` parameter
     hm = prog.async_body(MGR + '::handle_dht_message')
     okp = False
@@ -166,6 +167,8 @@ def run(ctx):
             pts = [p for p in [chk] + look if p is not None]
             okat = bool(pts) and any(all(recv.dominates(g.def_bb, p) and L.atomic_section(recv, g, p, c.bb)[0] for p in pts) for g in gs)
             ctx.ob('AT-MOST-ONCE', 'B:send#%d:one-guard' % i, okat, c.where(), 'expected-peer check and remove under one write guard, no await: %s' % okat)
+    if recv is not None:
+        _no_unauth_effect(ctx, recv, 'B', 'active_requests', ('expected_peer',), ('transport_peer_id',), TH + '::start_message_receiving_system')
     fty = prog.field_ty('network::PendingRequest', 'response_tx')
     ctx.ob('AT-MOST-ONCE', 'B:type', 'oneshot::Sender' in fty, 'src/network.rs', 'PendingRequest.response_tx : %s' % fty)
 
@@ -221,10 +224,33 @@ def run(ctx):
                'handle_response(%s) %s' % (', '.join(str(p) for p in params), 'checks the authenticated sender' if auth else
                                           'has no authenticated-sender input at all: any caller-supplied response carrying a pending id completes that request, whoever sent it'))
     ctx.floor('PAIR', 5)
+    ctx.floor('UNAUTH-NO-EFFECT', 2)
     ctx.floor('COMPLETION-GATE', 7)
     ctx.floor('AT-MOST-ONCE', 6)
     ctx.floor('CANCEL-SAFE', 3)
     ctx.floor('CAP', 2)
+
+
+MUTATORS = r'(HashMap|LruCache|BTreeMap)::<.*>::(remove|remove_entry|pop|pop_entry|insert|put|push|clear|retain|drain|extract_if)$'
+
+
+def _no_unauth_effect(ctx, b, tag, field, expected, conn, entry):
+    """UNAUTH-NO-EFFECT: in the reply handler, everything that changes the pending table or takes the completion
+    sender out of an entry is dominated by the authorisation of the connection id. A reply from any other peer,
+    whatever id it carries, therefore leaves every pending request as it was."""
+    sites = [(c, '%s.%s' % (field, c.short())) for c in table_calls(b, field, MUTATORS)]
+    for c in b.calls(r'Option::<.*>::take$|mem::take$|mem::replace$'):
+        e = b.expr(c.args[0])
+        if 'response_tx' in e.show() and (e.mentions_call(L.LOCK_ACQ) is not None):
+            sites.append((c, 'response_tx.take'))
+    if not sites:
+        ctx.ob('UNAUTH-NO-EFFECT', '%s:effects' % tag, False, b.where(), 'no mutation of %s / take of response_tx found in the reply handler (anchor)' % field)
+    for i, (c, what) in enumerate(sites):
+        auth, why = _sender_gate(b, F.dominating_conds(b, c.bb), expected=expected, conn=conn)
+        ctx.ob('UNAUTH-NO-EFFECT', '%s:effect#%d:%s' % (tag, i, what), auth, c.where(),
+               ('%s happens only after the sender was authorised' % what) if auth else
+               ('%s is NOT dominated by the sender authorisation: a reply from a peer that was not contacted, carrying a pending id, '
+                'changes that pending request' % what), entry=entry)
 
 
 def _cv(prog, e):
